@@ -25,7 +25,7 @@ func init() {
 			"(R3) every messageKind constant has an encoder writing exactly that kind byte and an arm in read; read's upper bound is the largest constant; " +
 			"(R4) enqueue's close case cancels pending window increments and write-closes of the stream (read rejects both for a closed stream). " +
 			"(R5) the stream-open goroutine never closes the stream unconditionally; (R6, teardown reasons) the reader returns an error for exactly the reasons (per message kind) that were read and confirmed on the pinned tree and covered by R1–R4 — a new reason, such as refusing window increments on a half-closed stream, is reported, as is a dropped one; " +
-			"(R7) read rejects data for a write-closed stream ⇒ closeWrite queues the close-write message only after it took the write-deadline semaphore, i.e. after every in-flight Write has queued its data (shared with C23.R5); " +
+			"(R7) read rejects data for a write-closed stream ⇒ closeWrite queues the close-write message only after it took the write-deadline semaphore, i.e. after every in-flight Write has queued its data (shared with C23.R5); likewise read rejects a window increment for a closed stream ⇒ close queues the close message only after a blocking receive of the read-deadline semaphore, which an in-flight Read holds until its increment is queued; " +
 			"Not decided: absence of protocol violations that depend on message interleavings between the two sides (e.g. data racing a close), timing, and the readiness-channel invariant sendWindowReady⇔sendWindow>0 (assumed for R2).",
 		Assumptions: []string{
 			"sendWindowReady holds a token iff sendWindow > 0 (maintained under sendWindowLock; lockset part is C23)",
@@ -40,7 +40,12 @@ func runC24(c *eng.Ctx) {
 	// R7 (shared with C23.R5): read rejects data for a write-closed stream ⇒ the
 	// close-write message is queued only once no Write is in flight.
 	closeWriteAfterWriters(c, "R7")
-	c.Floor("R7", 1)
+	// … and read rejects a window increment for a closed stream ⇒ the close
+	// message is queued only after a BLOCKING receive of the read-deadline
+	// semaphore, which an in-flight Read holds until it has queued its increment.
+	streamBarrier(c, "R7", "close-after-readers-drained", "Stream.close", "readDeadline", "enqueueClose",
+		"the close message is enqueued only after the read-deadline semaphore was taken with a blocking receive (no reader is about to queue a window increment)")
+	c.Floor("R7", 2)
 	read := c.MustFunc("R1", muxPkg, "Multiplexer.read")
 	enq := c.MustFunc("R1", muxPkg, "Multiplexer.enqueue")
 	if read == nil || enq == nil {
